@@ -9,6 +9,9 @@ def tt_layer(E, s):
     if s.get('ctor') == 'positional':
         # the documented parameter order: size_in, size_out, rank, dtype, initializer
         layer = E.tt.nn.LinearLayerTT(list(s['size_in']), list(s['size_out']), list(s['rank']), E.dt(s['dtype']), s['init'])
+    elif s.get('ctor') == 'tuples':
+        # sizes and ranks given as tuples / torch.Size (as in LinearLayerTT(sample.shape, ...))
+        layer = E.tt.nn.LinearLayerTT(tn.zeros(list(s['size_in'])).shape, tuple(s['size_out']), tuple(s['rank']), dtype=E.dt(s['dtype']), initializer=s['init'])
     elif s.get('ctor') == 'positional_dtype':
         layer = E.tt.nn.LinearLayerTT(list(s['size_in']), list(s['size_out']), list(s['rank']), E.dt(s['dtype']), initializer=s['init'])
     else:
